@@ -82,6 +82,46 @@ def via_route(ctx, sc, route):
         if extra:
             s.load_ref()
         return s.to_cell()
+    if route == 'slice_then_read':
+        # the cell is taken from a slice in the middle of parsing, and parsing goes on afterwards: the cell keeps
+        # describing - and hashing - what the slice held at that moment
+        j = min(5, 1023 - len(sc.bits))
+        b = Builder().store_bits(ctx.bitstr('jp', j)) if j else Builder()
+        if len(sc.bits):
+            b.store_bits(sc.bits)
+        for r in sc.refs:
+            b.store_ref(to_real(r, via='builder'))
+        s = b.end_cell().begin_parse()
+        s.skip_bits(j)
+        c = s.to_cell()
+        if len(sc.bits) >= 2:
+            s.load_bits(2)
+        if len(sc.bits) >= 3:
+            s.load_bit()
+        if sc.refs:
+            s.load_ref()
+        if len(sc.bits) >= 12:
+            s.load_uint(8)
+        return c
+    if route == 'boc_stored_hashes':
+        # a foreign bag of cells that carries stored hashes and depths - arbitrary ones: whatever the parser makes of
+        # them, a cell it returns reports the hash and depth of its own contents
+        from specs import bocspec
+        nodes = topo(sc)[::-1]
+        pos = {id(c): k for k, c in enumerate(nodes)}
+        ecs = []
+        for k, c in enumerate(nodes):
+            hs = ds = None
+            if k == 0 or k % 2 == 1:
+                hs = [ctx.bytes_(f'sh{k}', 32)]
+                ds = [ctx.bytes_(f'sd{k}', 2)]
+            ecs.append(bocspec.ECell(c.bits, [pos[id(r)] for r in c.refs], exotic=False, mask=0, hashes=hs,
+                                     depths=None if ds is None else [_RawBytes(d) for d in ds]))
+        data = bocspec.encode(ecs, roots=(0,))
+        try:
+            return Cell.one_from_boc(data)
+        except Exception:
+            return None
     if route == 'builder_reused':
         # the cell is finished, then its builder goes on being used (another reference, more bits, a second cell):
         # the finished cell must keep describing - and hashing - what it held when it was finished
@@ -104,9 +144,20 @@ def via_route(ctx, sc, route):
     raise ValueError(route)
 
 
+class _RawBytes:
+    def __init__(self, b):
+        self.b = b
+
+    def to_bytes(self, n, order):
+        return self.b
+
+
 def h_cell(ctx, n, shape, route='builder', twin=None):
     sc = warm(build_shape(ctx, n, shape))
     c = via_route(ctx, sc, route)
+    if c is None:
+        ctx.require(route == 'boc_stored_hashes', 'a bag of cells with wrong stored hashes may be refused (no cell is returned)')
+        return
     want_h = cell_hash(sc, 0)
     want_d = cell_depth(sc, 0)
     if twin == 'pad0':
@@ -183,7 +234,8 @@ QUICK_N = sorted(set(list(range(0, 18)) + [23, 24, 25, 31, 32, 33, 63, 64, 65, 7
                                             1007, 1008, 1009] + list(range(1015, 1024))))
 SHAPES = ['leaves0', 'leaves1', 'leaves2', 'leaves3', 'leaves4', 'chain1', 'chain2', 'chain255', 'chain256', 'shared2', 'shared4',
           'diamond', 'uneven']
-ROUTES = ['ctor', 'builder', 'copy', 'parse_to_cell', 'to_builder', 'slice_consumed', 'boc', 'plain_bitarray', 'builder_reused']
+ROUTES = ['ctor', 'builder', 'copy', 'parse_to_cell', 'to_builder', 'slice_consumed', 'boc', 'plain_bitarray', 'builder_reused',
+          'slice_then_read', 'boc_stored_hashes']
 
 
 def instances(tier, seed):
@@ -199,7 +251,7 @@ def instances(tier, seed):
     for route in ROUTES:
         for n in ((0, 1, 7, 8, 13, 1016, 1023) if tier == 'quick' else (0, 1, 2, 7, 8, 9, 13, 64, 255, 256, 1015, 1016, 1017, 1022, 1023)):
             for shape in ('leaves0', 'leaves2', 'leaves4', 'diamond'):
-                if route == 'slice_consumed' and n > 1018:
+                if route in ('slice_consumed', 'slice_then_read') and n > 1018:
                     continue
                 yield 'h_cell', dict(n=n, shape=shape, route=route)
     for n in (0, 1, 8, 9, 64):
